@@ -29,6 +29,8 @@ impl ContainerBoxHeader {
                 let xlbox = xlbox.checked_sub(16).ok_or(Error::InvalidBox)?;
                 (tbox, Some(xlbox), 16)
             }
+            // Extended size header of which not all 16 bytes are available yet.
+            [0, 0, 0, 1, _, _, _, _, ..] => return Ok(HeaderParseResult::NeedMoreData),
             [s0, s1, s2, s3, t0, t1, t2, t3, ..] => {
                 let sbox = u32::from_be_bytes([s0, s1, s2, s3]);
                 let tbox = ContainerBoxType([t0, t1, t2, t3]);
